@@ -14,6 +14,9 @@
 --  * (2) S-boxes (on top of C07's `val` / `Inv`): `exp7` / `cube` denote `x^7` / `x^3`, the inverse
 --    S-box chains denote `x^INV_ALPHA`, `alpha * inv_alpha = 1 (mod p - 1)`, and by Fermat the two
 --    S-boxes invert each other on every residue, zero included, for all three instances.
+--  * (4) sponge level: `hash_elements` of all three instances, and `hash`, `merge`, `merge_with_int`
+--    of Rp64_256, on valid raw words denote the reference sponge on residues (absorb into the rate by
+--    addition, permute when full, pad, squeeze) built on the reference permutation.
 --  * (3) sponge: totality of byte hashing; the byte encoding is injective; `hash` is
 --    `hash_elements` of the encoding; `merge = hash_elements (a ++ b)` for Rp64_256 / Rp62_248 on
 --    canonical raw words; `merge_with_int`: different u64 integers give pre-permutation states that
@@ -30,6 +33,8 @@ import WinterProofs.Lemmas.C11MergeInt
 import WinterProofs.Lemmas.C11Round12
 import WinterProofs.Lemmas.C11Round8
 import WinterProofs.Lemmas.C11Round62
+import WinterProofs.Lemmas.C11SpongeSem
+import WinterProofs.Lemmas.C11Sponge64
 
 namespace WinterProofs.C11
 open Gen Model Model.Rescue
@@ -301,5 +306,79 @@ example : (18446744069414584321 : Nat) < 18446744073709551616 ∧ (1844674406941
 /-- extension elements are hashed as their base-field flattening (definitional in the model) -/
 theorem hash_elements_ext_is_flattening (P : Params) (es : List (List Nat)) :
     hashElementsExt P es = hashElements P es.flatten := rfl
+
+/-! ## (4) The sponge on raw words denotes the reference sponge on residues -/
+
+/-- `hash_elements` of Rp64_256 on valid raw words: a digest of valid raw words whose residues are
+    the reference sponge (`SpongeSem.refHashElements`: element count in the capacity, absorb into the
+    rate by addition, reference permutation when the rate is full and at the end, squeeze) -/
+theorem hash_elements_rp64_denotes_reference (es : List Nat) (he : ∀ e ∈ es, F64Z.Inv e)
+    (hlen : es.length < 18446744073709551616) :
+    (∀ d ∈ hashElements rp64 es, F64Z.Inv d) ∧
+    (hashElements rp64 es).map F64Z.val = SpongeSem.refHashElements Round12.perm (es.map F64Z.val) :=
+  SpongeSem.hashElements_sem Round12.perm es he hlen
+
+/-- the same for RpJive64_256 (Hirose padding: flag in the capacity, a one and zeros over the rate) -/
+theorem hash_elements_rpjive_denotes_reference (es : List Nat) (he : ∀ e ∈ es, F64Z.Inv e)
+    (hlen : es.length < 18446744073709551616) :
+    (∀ d ∈ hashElements rpjive es, F64Z.Inv d) ∧
+    (hashElements rpjive es).map F64Z.val = SpongeSem.refHashElements Round8.perm (es.map F64Z.val) :=
+  SpongeSem.hashElements_sem Round8.perm es he hlen
+
+/-- the same for Rp62_248, on every valid raw word (`< 2p`): in particular the digest depends on the
+    residues only up to the residues of the result, whichever representative each input word is -/
+theorem hash_elements_rp62_denotes_reference (es : List Nat) (he : ∀ e ∈ es, F62Z.Inv e)
+    (hlen : es.length < 18446744073709551616) :
+    (∀ d ∈ hashElements rp62 es, F62Z.Inv d) ∧
+    (hashElements rp62 es).map F62Z.val = SpongeSem.refHashElements Round62.perm62 (es.map F62Z.val) :=
+  SpongeSem.hashElements_sem Round62.perm62 es he hlen
+
+-- a non-trivial instance: nine elements (more than one rate block), among them 0 and p - 1
+example : (∀ e ∈ [0, 1, 2, 3, 4, 5, 6, 7, 18446744069414584320], F64Z.Inv e) ∧
+    [0, 1, 2, 3, 4, 5, 6, 7, 18446744069414584320].length < 18446744073709551616 := by
+  unfold F64Z.Inv; decide
+
+/-- `merge` of Rp64_256: the reference sponge over the eight residues of the two digests -/
+theorem merge_rp64_denotes_reference (a0 a1 a2 a3 b0 b1 b2 b3 : Nat)
+    (h0 : F64Z.Inv a0) (h1 : F64Z.Inv a1) (h2 : F64Z.Inv a2) (h3 : F64Z.Inv a3)
+    (h4 : F64Z.Inv b0) (h5 : F64Z.Inv b1) (h6 : F64Z.Inv b2) (h7 : F64Z.Inv b3) :
+    (merge rp64 [a0, a1, a2, a3] [b0, b1, b2, b3]).map F64Z.val
+      = SpongeSem.refHashElements Round12.perm ([a0, a1, a2, a3, b0, b1, b2, b3].map F64Z.val) := by
+  rw [Sponge.rp64_merge_eq a0 a1 a2 a3 b0 b1 b2 b3 h0 h1 h2 h3 h4 h5 h6 h7]
+  refine (SpongeSem.hashElements_sem Round12.perm _ ?_ (by simp)).2
+  intro e he
+  simp only [List.mem_cons, List.not_mem_nil, or_false] at he
+  rcases he with rfl | rfl | rfl | rfl | rfl | rfl | rfl | rfl <;> assumption
+
+/-- `merge_with_int` of Rp64_256: seed, `v`, `v div p` and the domain flag, permuted and squeezed -/
+theorem merge_with_int_rp64_denotes_reference (s0 s1 s2 s3 v : Nat)
+    (h0 : F64Z.Inv s0) (h1 : F64Z.Inv s1) (h2 : F64Z.Inv s2) (h3 : F64Z.Inv s3)
+    (hv : v < 18446744073709551616) :
+    (∀ d ∈ mergeWithInt rp64 [s0, s1, s2, s3] v, F64Z.Inv d) ∧
+    (mergeWithInt rp64 [s0, s1, s2, s3] v).map F64Z.val
+      = Sponge64.refMergeWithInt ([s0, s1, s2, s3].map F64Z.val) v :=
+  Sponge64.mergeWithInt_sem s0 s1 s2 s3 v h0 h1 h2 h3 hv
+
+/-- `hash` of Rp64_256 on a byte string: succeeds, and the digest denotes the reference sponge over
+    the documented encoding of the bytes (7-byte little-endian chunks, a byte 1 after the last) -/
+theorem hash_rp64_denotes_reference (bs : List Nat) (hb : ∀ x ∈ bs, x < 256)
+    (hlen : bs.length < 18446744073709551616) :
+    ∃ d, hashBytes rp64 bs = .ok d ∧ (∀ e ∈ d, F64Z.Inv e) ∧
+      d.map F64Z.val = SpongeSem.refHashElements Round12.perm
+        ((Sponge.encodeBytes bs).map (fun (k : Nat) => (k : ZMod F64Z.P))) := by
+  refine ⟨_, Sponge.hashBytes_eq rp64 bs, ?_⟩
+  have h64 : ∀ k ∈ Sponge.encodeBytes bs, k < 18446744073709551616 :=
+    fun k hk => Nat.lt_trans (Sponge64.encodeBytes_lt bs hb k hk) (by decide)
+  have hl : ((Sponge.encodeBytes bs).map Gen.F64.new).length < 18446744073709551616 := by
+    rw [List.length_map, Sponge.encodeBytes_length]
+    unfold numElements
+    split <;> omega
+  obtain ⟨i, v⟩ := SpongeSem.hashElements_sem Round12.perm _ (Sponge64.newRow_inv _ h64) hl
+  refine ⟨i, ?_⟩
+  show List.map F64Z.val (hashElements rp64 (List.map rp64.F.new (Sponge.encodeBytes bs))) = _
+  have ev : (Round12.perm).S.val = F64Z.val := rfl
+  have en : rp64.F.new = Gen.F64.new := rfl
+  rw [ev] at v
+  rw [en, v, Sponge64.newRow_val _ h64]
 
 end WinterProofs.C11
